@@ -254,6 +254,18 @@ def compile_props(pid, interval_ok=False, timeout=1800):
 def build_harness():
     """(re)build the Rust harness against /repo's current working tree, both profiles"""
     hdir = os.path.join(VERIF, "harness")
+    if os.path.abspath(REPO) != "/repo":
+        # VERIF_REPO points at another checkout (a scratch worktree): build a copy of the harness crate
+        # whose path dependency points there, so that /verif/harness itself stays as committed
+        import shutil
+        alt = os.path.join(BUILD, "harness-alt")
+        shutil.rmtree(alt, ignore_errors=True)
+        shutil.copytree(hdir, alt, ignore=shutil.ignore_patterns("target"))
+        with open(os.path.join(alt, "Cargo.toml")) as fh:
+            toml = fh.read()
+        with open(os.path.join(alt, "Cargo.toml"), "w") as fh:
+            fh.write(toml.replace('path = "/repo"', 'path = "%s"' % os.path.abspath(REPO)))
+        hdir = alt
     lock = os.path.join(hdir, "Cargo.lock")
     if not os.path.exists(lock) and os.path.exists(os.path.join(REPO, "Cargo.lock")):
         import shutil
